@@ -278,13 +278,23 @@ def unwindset_args(goto, rules):
     return ["--unwindset", ",".join(sets)] if sets else []
 
 
+def _big_stack():
+    # CBMC's symbolic execution recurses with the depth of the call chain / expression nesting: the deep
+    # harnesses of the protocol family overflow the default 8 MiB stack (SIGSEGV)
+    import resource
+    try:
+        resource.setrlimit(resource.RLIMIT_STACK, (resource.RLIM_INFINITY, resource.RLIM_INFINITY))
+    except (ValueError, OSError):
+        pass
+
+
 def run_one(scratch, name, goto, unwind, timeout_s, logdir, extra_cbmc=()):
     res = HarnessResult(name)
     logp = os.path.join(logdir, name + ".log")
     args = ["cbmc"] + CBMC_FLAGS + ["--unwind", str(unwind)] + list(extra_cbmc) + os.environ.get("VERIF_CBMC_EXTRA", "").split() + [goto]
     t0 = time.time()
     with open(logp, "w") as lf:
-        p = subprocess.Popen(args, stdout=lf, stderr=subprocess.STDOUT, start_new_session=True)
+        p = subprocess.Popen(args, stdout=lf, stderr=subprocess.STDOUT, start_new_session=True, preexec_fn=_big_stack)
         try:
             p.wait(timeout=timeout_s)
             timed_out = False
@@ -452,7 +462,7 @@ def extract_tapes(scratch, symtab, name, unwind, prop_ids, logdir, timeout_s=120
             for flags in ([f for f in CBMC_FLAGS if f != "--slice-formula"], CBMC_FLAGS):
                 args = ["cbmc"] + flags + ["--unwind", str(unwind), "--trace", "--property", pid] + list(extra_cbmc) + [goto]
                 try:
-                    out = subprocess.run(args, capture_output=True, text=True, timeout=timeout_s).stdout
+                    out = subprocess.run(args, capture_output=True, text=True, timeout=timeout_s, preexec_fn=_big_stack).stdout
                 except subprocess.TimeoutExpired:
                     continue
                 if "VERIFICATION FAILED" not in out:
@@ -502,6 +512,20 @@ def native_replay(scratch, package, name, tape, profile, small=True, extra_cfg=(
     if "panicked" in out:
         return "panic", out
     return "unknown", out[-2000:]
+
+
+def score_table(scratch, package="nucleo", test_path="verif::replay::score_table"):
+    """The real MultiPattern::score of the current tree on the (pattern, text) pairs of scored_h.rs, computed
+    natively (real dependencies). Returns {(pid, tid): score or -1} or None."""
+    env = scratch.env(True)
+    env["CARGO_TARGET_DIR"] = scratch.dir + "/native-target"
+    p = subprocess.run(["cargo", "test", "-p", package, "--lib", "--offline", test_path, "--", "--exact", "--nocapture"],
+                       cwd=scratch.native_repo(), env=env, capture_output=True, text=True, timeout=1200)
+    rows = re.findall(r"SCORE-TABLE (\d+) (\d+) (-?\d+)", p.stdout + p.stderr)
+    if p.returncode != 0 or not rows:
+        log((p.stdout + p.stderr)[-1500:])
+        return None
+    return {(int(a), int(b)): int(c) for a, b, c in rows}
 
 
 def oracle_selftest(scratch, package, small=True, test_path="verif::replay::oracle_selftest"):
